@@ -7,12 +7,19 @@ import tempfile
 from typing import Dict, Optional, Sequence
 
 PYBIND_TPL = """// test template
+// VERIF-HEAD-BEGIN
 {includes}
 {boost_class_export}
+// VERIF-HEAD-END
+// VERIF-SUBDECL-BEGIN
 {submodules}
+// VERIF-SUBDECL-END
+// VERIF-MODULEDEF
 {module_def} {{
     m_.doc() = "pybind11 wrapper of {module_name}";
+// VERIF-SUBINIT-BEGIN
 {submodules_init}
+// VERIF-SUBINIT-END
 // VERIF-BODY-BEGIN
 {wrapped_namespace}
 // VERIF-BODY-END
